@@ -16,8 +16,8 @@ pub struct ModelProg {
 impl ModelProg {
     fn opts(&self, rng: &mut Rng) -> Opts {
         match self.id {
-            "C09" => Opts { data: true, func: false, tron: false, stop: rng.coin(), max_lines: 40, input: rng.chance(1, 5), frac: rng.coin(), strings: rng.coin() },
-            "C10" => Opts { data: false, func: true, tron: false, stop: false, max_lines: 24, input: false, frac: rng.coin(), strings: rng.chance(1, 3) },
+            "C09" => Opts { data: true, func: false, tron: false, stop: rng.coin(), max_lines: 40, input: rng.chance(1, 5), frac: rng.coin(), strings: rng.coin(), arrays: rng.coin() },
+            "C10" => Opts { data: false, func: true, tron: false, stop: false, max_lines: 24, input: false, frac: rng.coin(), strings: rng.chance(1, 3), arrays: rng.coin() },
             _ => Opts {
                 data: rng.chance(1, 5),
                 func: false,
@@ -27,6 +27,7 @@ impl ModelProg {
                 input: rng.chance(1, 3),
                 frac: rng.coin(),
                 strings: rng.chance(1, 3),
+                arrays: rng.coin(),
             },
         }
     }
